@@ -65,10 +65,9 @@ def typecheckInline : Inline → Static RowOp
     -- `limit.trunc() == 0.0 || limit.fract() != 0.0`
     if F64.feq (F64.trunc f) F64.zero || F64.fractNonzero f then .typeError "InvalidLimit"
     else
-      let n := F64.toI64 f
-      if n = F64.i64Min then .panic "limit.rs:83 -limit overflows"
-      else if n < -1000000000000 then .panic "limit.rs:83 VecDeque::with_capacity"
-      else .ok (.limit n)
+      -- (before repo commit 68d8770 `-limit` overflowed for i64::MIN and a huge negative limit
+      -- aborted in `VecDeque::with_capacity`; `unsigned_abs` + capped capacity now)
+      .ok (.limit (F64.toI64 f))
   | .split sep src dst =>
     if optWellTyped src && optWellTyped dst then .ok (.split sep src dst) else .typeError "ExpectedExpr"
   | .timeslice _ none _ => .typeError "ExpectedDuration"
@@ -312,8 +311,6 @@ def applyStage (ext : Ext) (s : AggStage) (t : Table) : RunR Table :=
   | .sort cols dir =>
     if !sortKeysOk ext cols t.rows then
       .unmodelled "sort key panics or is outside the modelled fragment on some row"
-    else if !sortDetermined ext cols t.columns t.rows then
-      .unmodelled "sort compares two objects (hash-order dependent)"
     else .ok { t with rows := sortRows ext cols dir t.columns t.rows }
   | .adapt op => adaptTable ext op t
 
@@ -329,8 +326,6 @@ def headStage (ext : Ext) (s : AggStage) (rows : List Record) : RunR Table :=
     let datas := rows.map (·.data)
     if !sortKeysOk ext cols datas then
       .unmodelled "sort key panics or is outside the modelled fragment on some row"
-    else if !sortDetermined ext cols columns datas then
-      .unmodelled "sort compares two objects (hash-order dependent)"
     else
       -- incremental stable insertion by the ascending primary ordering
       let pre := datas.foldl (fun acc d =>
